@@ -369,6 +369,10 @@ def run_target_sizes(case):
     wasm = i % 2 == 0
     elems = ["&u8", "&&i32", "usize", "&Node", "&[]u8", "Node", "u16", "&[4]u64", rng.choice(PRIMS)]
     n = rng.randrange(1, 6)
+    if i % 4 >= 2:
+        # types that are never allocated may be as large as the address space: 2^20 .. 2^32-1 elements natively (the generator keeps array lengths in 32 bits), up to 2^27+2 for
+        # wasm (where |:[N]T| must still fit the 32-bit usize for every T here, at most 16 bytes each)
+        n = rng.choice([2 ** 20 + 1, 2 ** 24, 2 ** 27 + 2] if wasm else [2 ** 20 + 1, 2 ** 27 + 2, 2 ** 28, 2 ** 29 + 5, 2 ** 31 + 3, 2 ** 32 - 1])
     queries = {}
     for k, e in enumerate(elems):
         queries["e%d" % k] = e
@@ -384,9 +388,9 @@ def run_target_sizes(case):
                 "replay": replay, "cov": cov}
     got = {}
     for m in re.finditer(r"define [^@]*@size_(\w+)\(\)[^{]*\{(.*?)\n\}", r["ir"], re.S):
-        rm = re.search(r"ret i\d+ (\d+)", m.group(2))
+        rm = re.search(r"ret i(\d+) (-?\d+)", m.group(2))
         if rm:
-            got[m.group(1)] = int(rm.group(1))
+            got[m.group(1)] = int(rm.group(2)) % (1 << int(rm.group(1)))      # the IR prints constants as signed numbers
     if len(got) != len(queries):
         return {"verdict": INCONCLUSIVE, "detail": "size-of results not folded to constants in the IR", "cov": cov}
     word = got["e2"]        # usize
@@ -400,7 +404,7 @@ def run_target_sizes(case):
     if got["e5"] < got["e3"] + 1:
         return {"verdict": VIOLATED, "sig": "a structure is smaller than its members (%s)" % ("wasm" if wasm else "native"),
                 "detail": {"Node": got["e5"], "pointer": got["e3"]}, "replay": replay, "cov": cov}
-    return {"verdict": HELD, "cov": cov, "nt": "target_sizes:%s:%d:%d" % ("wasm" if wasm else "native", n, word)}
+    return {"verdict": HELD, "cov": cov, "nt": "target_sizes:%s:%d:%d" % ("wasm" if wasm else "native", n.bit_length(), word)}
 
 
 def run_case(case):
@@ -427,7 +431,7 @@ def main(tier, seed, replay=None):
     cases += [("len", seed, i) for i in range(270 if q else 4500)]
     cases += [("layout", seed, i) for i in range(300 if q else 6000)]
     cases += [("word", seed, i) for i in range(300 if q else 3000)]
-    cases += [("target_sizes", seed, i) for i in range(40 if q else 400)]
+    cases += [("target_sizes", seed, i) for i in range(80 if q else 800)]
     for r in common.run_sharded(run_case, cases):
         if r.get("verdict") is None and "harness_error" not in r:
             run.merge_counters(r.get("cov"))
